@@ -285,6 +285,13 @@ def check_inputs(spec, stats=None):
                 raise Violation("restart-twice-same-result", f"second restart raised {type(r2.exc).__name__}: {r2.exc}")
             d = states_equal(r1.res, r2.res, fields=FIELDS)
             require(d is None, "restart-twice-same-result", f"two restarts from the same checkpoint object differ in {d!r}")
+        # the early "target already met" path of a restart: the checkpoint must come out untouched there too
+        c3 = dict(c2)
+        r3 = run_min(prob, c3, checkpoint=ck, x0=np.array(ck.x, copy=True), ftarget=float(before["fun"]) + 1.0 + abs(float(before["fun"])))
+        d = states_equal(before, snapshot_state(ck), fields=FIELDS)
+        require(d is None, "inputs-untouched[checkpoint,early-target-restart]", f"checkpoint field {d!r} was modified by a restart whose target was already met")
+        if r3.exc is not None and not (scaler_involved and numeric(r3.exc)):
+            raise Violation("inputs-accepted[checkpoint,early-target-restart]", f"restart raised {type(r3.exc).__name__}: {r3.exc}")
         ck_used = True
         label += "+ckpt" + ("-ro" if ro else "") + ("-scaler" if scaler else "")
     if stats is not None:
